@@ -419,7 +419,7 @@ Definition finish (l : list cand) : list cand := dedup_ids [] (hide_filter l).
 Definition cbind (r : cres) (f : list cand -> cres) : cres := match r with COk l => f l | other => other end.
 Definition of_opt (site : N) (o : option (list cand)) : cres := match o with Some l => COk l | None => CPanic site end.
 
-(** [complete_arg] in state [ValueDone] *)
+(** [complete_arg] in state [ValueDone] (before the repair of finding C18-args-conflict; see [complete_arg_v]) *)
 Definition complete_arg_value_done (tbl : pvtable) (arg : bytes) (c : cmd) (pos_index : N) : cres :=
   let subs := if utf8_valid arg then complete_subcommand arg c else [] in
   cbind (match find_pos c pos_index with
@@ -445,6 +445,37 @@ Definition complete_arg (tbl : pvtable) (arg : bytes) (c : cmd) (pos_index : N) 
       cbind (of_opt 535 (complete_arg_value tbl arg o)) (fun optv =>
       let min := match a_num o with Some r => vmin r | None => 0 end in
       cbind (if min <? count then complete_arg_value_done tbl arg c pos_index else COk []) (fun more =>
+      COk (finish (optv ++ more))))
+  end.
+
+(** [complete_arg] with the argument [valid_arg_found] (repair of finding C18-args-conflict): like the real parser, no
+    subcommand is offered behind an argument of a command whose arguments conflict with subcommands.  The function
+    above is the code before the repair and this function with the flag off. *)
+Definition complete_arg_value_done_v (tbl : pvtable) (arg : bytes) (c : cmd) (pos_index : N) (valid_arg_found : bool) : cres :=
+  let maybe_subcommand := negb (is_set s_args_negate_subs c && valid_arg_found) in
+  let subs := if utf8_valid arg && maybe_subcommand then complete_subcommand arg c else [] in
+  cbind (match find_pos c pos_index with
+         | Some p => of_opt 535 (complete_arg_value tbl arg p)
+         | None => COk [] end) (fun posv =>
+  cbind (complete_option tbl arg c) (fun opts =>
+  COk (finish (subs ++ posv ++ opts)))).
+
+Definition complete_arg_v (tbl : pvtable) (arg : bytes) (c : cmd) (pos_index : N) (st : pstate) (valid_arg_found : bool) : cres :=
+  match st with
+  | ValueDone => complete_arg_value_done_v tbl arg c pos_index valid_arg_found
+  | Pos _ num_arg =>
+      match find_pos c pos_index with
+      | Some p =>
+          cbind (of_opt 535 (complete_arg_value tbl arg p)) (fun posv =>
+          cbind (if match a_num p with Some r => vmin r <=? num_arg | None => false end
+                 then complete_option tbl arg c else COk []) (fun opts =>
+          COk (finish (posv ++ opts))))
+      | None => COk (finish [])
+      end
+  | Opt o count =>
+      cbind (of_opt 535 (complete_arg_value tbl arg o)) (fun optv =>
+      let min := match a_num o with Some r => vmin r | None => 0 end in
+      cbind (if min <? count then complete_arg_value_done_v tbl arg c pos_index valid_arg_found else COk []) (fun more =>
       COk (finish (optv ++ more))))
   end.
 
@@ -501,7 +532,7 @@ Definition find_long_visible (c : cmd) (flag : bytes) : option arg :=
     where the cursor reaches the target: where the shadow parse stands when [complete_arg] is called *)
 Inductive walk :=
 | WPanic (site : N) | WFuel | WEnd
-| WAt (arg : bytes) (cur : cmd) (pos_index : N) (st : pstate) (is_escaped : bool).
+| WAt (arg : bytes) (cur : cmd) (pos_index : N) (st : pstate) (is_escaped : bool) (valid_arg_found : bool).
 
 (** one iteration of the loop body after the cursor test: new (cmd, pos_index, is_escaped, state, valid_arg_found) *)
 Inductive step := SPanic (site : N) | SFuel
@@ -586,7 +617,7 @@ Fixpoint shadow_walk (items : list bytes) (cursor target : N) (cur : cmd) (pos_i
   | [] => WEnd
   | arg :: rest =>
       let cursor := sat_add cursor 1 in
-      if cursor =? target then WAt arg cur pos_index next_state is_escaped
+      if cursor =? target then WAt arg cur pos_index next_state is_escaped valid_arg_found
       else
         match shadow_step arg cur pos_index is_escaped next_state valid_arg_found with
         | SPanic s => WPanic s
@@ -607,7 +638,7 @@ Definition complete_built (tbl : pvtable) (b : cmd) (args : list bytes) (arg_ind
   | WPanic s => CPanic s
   | WFuel => CFuel
   | WEnd => CErr
-  | WAt arg cur pi st _ => complete_arg tbl arg cur pi st
+  | WAt arg cur pi st _ vaf => complete_arg_v tbl arg cur pi st vaf
   end.
 
 (** [complete]: [cmd.build()] then the above *)
@@ -689,7 +720,7 @@ Fixpoint shadow_walk_before_fix (items : list bytes) (cursor target : N) (cur : 
   | [] => WEnd
   | arg :: rest =>
       let cursor := sat_add cursor 1 in
-      if cursor =? target then WAt arg cur pos_index next_state is_escaped
+      if cursor =? target then WAt arg cur pos_index next_state is_escaped false
       else
         match shadow_step_before_fix arg cur pos_index is_escaped next_state with
         | SPanic s => WPanic s
@@ -712,7 +743,7 @@ Definition complete_model_before_fix (tbl : pvtable) (c : cmd) (args : list byte
              | WPanic s => CPanic s
              | WFuel => CFuel
              | WEnd => CErr
-             | WAt arg cur pi st _ => complete_arg tbl arg cur pi st
+             | WAt arg cur pi st _ _ => complete_arg tbl arg cur pi st
              end
   end.
 
